@@ -50,6 +50,7 @@ def main() -> int:
         ctx.audit_result = common.audit(prop, tier)
         common.import_ginjax()
         if replay is not None and hasattr(mod, "replay") and replay.get("kind") != "theorem":
+            ctx.is_replay = True
             mod.replay(ctx, replay)
         else:
             mod.run(ctx)
